@@ -382,6 +382,9 @@ var trailers = []string{
 	"X-T: v\n\n", "\n", "X-T: v\n\r\n",
 	"Content-Length: 3" + crlf + crlf, "Host: h" + crlf + crlf, "X-T v" + crlf + crlf, "X-T : v" + crlf + crlf,
 	" X-T: v" + crlf + crlf, "X-T: \x01" + crlf + crlf, "", "\r", "Transfer-Encoding: chunked" + crlf + crlf,
+	"Expect : 100-continue" + crlf + crlf, "Expect: 100-continue" + crlf + crlf, "expect\t: 100-continue" + crlf + crlf,
+	"Content-Length : 5" + crlf + crlf, "Transfer-Encoding : chunked" + crlf + crlf, "Host : evil" + crlf + crlf,
+	"Connection : close" + crlf + crlf, "X-T: v" + crlf + "Expect : 100-continue" + crlf + crlf, "E xpect: 100-continue" + crlf + crlf,
 }
 
 func multipartBody(r *rand.Rand, boundary string, odd bool) []byte {
@@ -819,6 +822,52 @@ func corpus() []desc {
 		"GET /h HTTP/1.1\r\nHost: h\r\nX: a\x00b\r\n\r\n",
 	} {
 		l = append(l, directed(h+get("/after"), "head-"+strconv.Itoa(i)))
+	}
+	// trailer dictionaries: every forbidden trailer name (header.go isBadTrailer) and some allowed neighbours x
+	// {plain, SP / HTAB before the colon, mixed case, upper case, inner space} x what follows the message
+	// {bytes that parse as another chunked body, a request}; run with and without DisableHeaderNamesNormalizing.
+	// A trailer field that reaches the request's header list must never change how the connection is framed.
+	trailerNames := []struct{ name, val string }{
+		{"Authorization", "Basic eA=="}, {"Content-Encoding", "gzip"}, {"Content-Length", "5"}, {"Content-Type", "text/plain"},
+		{"Content-Range", "bytes 0-1/2"}, {"Connection", "close"}, {"Connection", "keep-alive"}, {"Cookie", "a=b"},
+		{"Expect", "100-continue"}, {"Host", "evil"}, {"Keep-Alive", "timeout=5"}, {"Location", "/x"}, {"Max-Forwards", "1"},
+		{"Proxy-Connection", "close"}, {"Proxy-Authenticate", "Basic"}, {"Proxy-Authorization", "Basic eA=="}, {"Range", "bytes=0-1"},
+		{"Set-Cookie", "a=b"}, {"TE", "trailers"}, {"Trailer", "X-T"}, {"Transfer-Encoding", "chunked"}, {"WWW-Authenticate", "Basic"},
+		{"X-Forwarded-For", "1.2.3.4"}, {"X-Real-Ip", "1.2.3.4"},
+		// allowed neighbours
+		{"X-T", "v"}, {"Expect-Ct", "100-continue"}, {"Expec", "100-continue"}, {"Content-Lengthx", "5"}, {"Transfer-Encodin", "chunked"}, {"Hostx", "evil"},
+	}
+	mixed := func(n string) string {
+		b := []byte(n)
+		for i := range b {
+			if i%2 == 0 {
+				b[i] = byte(strings.ToLower(string(b[i]))[0])
+			} else {
+				b[i] = byte(strings.ToUpper(string(b[i]))[0])
+			}
+		}
+		return string(b)
+	}
+	for ti, tn := range trailerNames {
+		variants := []string{
+			tn.name + ": " + tn.val, tn.name + " : " + tn.val, tn.name + "\t: " + tn.val, tn.name + " \t : " + tn.val,
+			mixed(tn.name) + ": " + tn.val, strings.ToUpper(tn.name) + ": " + tn.val, strings.ToLower(tn.name) + " : " + tn.val,
+			tn.name[:1] + " " + tn.name[1:] + ": " + tn.val, tn.name + ":" + tn.val, "X-A: b\r\n" + tn.name + " : " + tn.val,
+		}
+		for vi, tl := range variants {
+			for fi, follow := range []string{"5\r\nhello\r\n0\r\n\r\n" + get("/after"), get("/after")} {
+				for bi, body := range []string{"3\r\nabc\r\n0\r\n", "0\r\n"} {
+					if bi == 1 && !(tn.name == "Expect" || tn.name == "Content-Length" || tn.name == "Transfer-Encoding" || tn.name == "Host" || tn.name == "Connection") {
+						continue // the empty chunked body (ContentLength() becomes 0) only for the framing-relevant names
+					}
+					d := directed("POST /upload HTTP/1.1\r\nHost: h\r\nTransfer-Encoding: chunked\r\n\r\n"+body+tl+"\r\n\r\n"+follow,
+						fmt.Sprintf("trailer-%d-%d-%d-%d", ti, vi, fi, bi))
+					d.Cfgs = []cfgD{{}, {NoNorm: true}}
+					d.Kind = "trailer"
+					l = append(l, d)
+				}
+			}
+		}
 	}
 	big := directed("POST /a HTTP/1.1\r\nHost: h\r\nContent-Length: 30\r\n\r\n"+strings.Repeat("b", 30)+get("/b"), "maxbody")
 	big.MaxBody = 20
